@@ -287,6 +287,28 @@ def intoStringListList (old : List (List String)) : JV → Option (List (List St
   | .null => some []
   | _ => none
 
+/-! ### the same, when the caller IGNORES the error (`json.Unmarshal(witness, &w)` in the NUT-11/14 verifiers)
+
+  An `UnmarshalTypeError` is recorded and decoding goes on: the offending value is skipped and its target keeps what it
+  had.  The pair is (what is left behind, no error was recorded). -/
+
+def laxString (old : String) : JV → String × Bool
+  | .str s => (s, true)
+  | .null => (old, true)
+  | _ => (old, false)
+
+def laxStrings (old : List String) : List JV → List String × Bool
+  | [] => ([], true)
+  | v :: vs =>
+    let a := laxString (old.headD "") v
+    let r := laxStrings old.tail vs
+    (a.1 :: r.1, a.2 && r.2)
+
+def laxStringList (old : List String) : JV → List String × Bool
+  | .arr xs => laxStrings old xs
+  | .null => ([], true)
+  | _ => (old, false)
+
 /-- `foldRune`: the smallest rune of the simple-folding orbit — all that matters against ASCII member names:
     ASCII letters fold to upper case, U+017F (long s) to `S`, U+212A (Kelvin sign) to `K`. -/
 def foldChar (c : Char) : Char :=
